@@ -551,7 +551,9 @@ func MkPriorityClass(name string, v int32) *schedv1.PriorityClass {
 // StdPriorityClasses: p50 (train, preemptible) p75 p100 (build, non-preemptible) p125.
 func StdPriorityClasses() []*schedv1.PriorityClass {
 	return []*schedv1.PriorityClass{MkPriorityClass("p50", 50), MkPriorityClass("p75", 75),
-		MkPriorityClass("p100", 100), MkPriorityClass("p125", 125)}
+		MkPriorityClass("p100", 100), MkPriorityClass("p125", 125),
+		// the ends of the legal value range (user classes: <= 1e9, any negative int32)
+		MkPriorityClass("pmin", -2147483648), MkPriorityClass("pbig", 1000000000)}
 }
 
 func MkBindRequest(pod *corev1.Pod, node string, groups []string, received string, portion string, count int) *schedv1alpha2.BindRequest {
